@@ -24,11 +24,16 @@ type solverSpec struct {
 	Name string
 	Cmd  func(file string, timeout time.Duration) []string
 	CVC5 bool
+	// Early solvers start together with the first one.
+	Early bool
 }
 
 var solvers = []solverSpec{
 	{Name: "z3-5.1.0", Cmd: func(f string, t time.Duration) []string {
 		return []string{"z3-new", fmt.Sprintf("-T:%d", int(t.Seconds())+1), f}
+	}},
+	{Name: "z3-5.1.0-ematch", Early: true, Cmd: func(f string, t time.Duration) []string {
+		return []string{"z3-new", fmt.Sprintf("-T:%d", int(t.Seconds())+1), "smt.mbqi=false", f}
 	}},
 	{Name: "cvc5-1.0", CVC5: true, Cmd: func(f string, t time.Duration) []string {
 		return []string{"cvc5", fmt.Sprintf("--tlimit=%d", t.Milliseconds()), f}
@@ -125,6 +130,10 @@ func solveQuery(q *Query, timeout time.Duration, all bool) SolveResult {
 	}
 	launch(solvers[0])
 	launched := 1
+	for launched < len(solvers) && solvers[launched].Early {
+		launch(solvers[launched])
+		launched++
+	}
 	var tried []string
 	best := SolveResult{Status: "unknown"}
 	got := 0
